@@ -49,6 +49,12 @@ bool excluded(const std::string &sig) {
     return false;
 }
 
+}  // namespace
+namespace vf {
+bool is_excluded(const std::string &sig) { return excluded(sig); }
+void count_excluded(const std::string &sig) { G.excluded_known++; G.excluded[sig]++; }
+}
+namespace {
 const char *signame(int s) {
     switch (s) { case SIGSEGV: return "SIGSEGV"; case SIGBUS: return "SIGBUS"; case SIGFPE: return "SIGFPE";
                  case SIGILL: return "SIGILL"; case SIGABRT: return "SIGABRT"; case SIGVTALRM: return "CPU-BUDGET"; }
